@@ -6,7 +6,7 @@ from .c17 import fmt_dec
 
 MODS = ['Model.Guard', 'Spec.GuardSpec', 'Proofs.GuardProofs']
 RULE = ('cases = one guarded mixin `.m<i>(@a, @b) when <guard>` and one call with two numeric arguments; guard = comma list (1-3) of '
-        'and-chains (1-3) of conditions `[not] (x op y)` with op in > < = >= =<, x/y in {@a, @b, literal}; numbers from '
+        'and-chains (1-3) of conditions `[not] (x op y)` with op in > < = >= =<, x/y in {@a, @b, literal, a top-level variable defined before and again after the mixin}; arguments literal, block-local variables, forwarded by a wrapper, variables named like the parameters passed swapped / shifted; numbers from '
         '{negative, zero, positive} x {integer, decimal} x {unit, no unit}, pairs biased to less/equal/greater; plus groups of same-named '
         'mixins with mutually exclusive guards; distinct = distinct (guard text, arguments); non-trivial = guard has >= 2 conditions or a not')
 ASSUMPTIONS = ['argument binding (positional) and numeric evaluation of guard operands are as modelled; tied by correspondence',
@@ -29,7 +29,7 @@ def qlit(fr):
     return '(%d#%d)' % (fr.numerator, fr.denominator) if fr >= 0 else '(-(%d#%d))' % (-fr.numerator, fr.denominator)
 
 
-def gen_guard(rng, a_sym='@a', b_sym='@b'):
+def gen_guard(rng, a_sym='@a', b_sym='@b', g_sym=None):
     """guard structure with symbolic operands: returns (text, chains) where operands are ('a'|'b'|Fraction)"""
     nch = rng.choice([1, 1, 1, 2, 2, 3])
     chains, text_chains = [], []
@@ -45,6 +45,8 @@ def gen_guard(rng, a_sym='@a', b_sym='@b'):
                     return a_sym, 'a'
                 if k < 0.7:
                     return b_sym, 'b'
+                if g_sym and k < 0.8:
+                    return g_sym, 'g'
                 v = number(rng)
                 return fmt_dec(v) + rng.choice(UNITS), v
             (xt, xv), (yt, yv) = operand(), operand()
@@ -54,8 +56,8 @@ def gen_guard(rng, a_sym='@a', b_sym='@b'):
     return ', '.join(text_chains), chains
 
 
-def instantiate(chains, a, b):
-    sub = lambda v: a if v == 'a' else (b if v == 'b' else v)
+def instantiate(chains, a, b, g=None):
+    sub = lambda v: a if v == 'a' else (b if v == 'b' else (g if v == 'g' else v))
     return [[(neg, sub(x), op, sub(y)) for (neg, x, op, y) in ch] for ch in chains]
 
 
@@ -77,11 +79,21 @@ def terms(chains):
 def gen_case(rng, i):
     """one guarded mixin, 1-3 call sites with different argument values; the arguments are literals, block-local
     variables of the SAME name in every caller, or forwarded through a wrapper mixin"""
-    guard_text, chains = gen_guard(rng)
-    style = rng.choice(['literal', 'literal', 'localvar', 'wrapper'])
-    less = '.m%d(@a, @b) when %s { width: yes }\n' % (i, guard_text)
+    # a guard may also mention a top-level variable that is no parameter; it is defined before the mixin and defined again after it
+    # (the last top-level definition is the one in force everywhere), the two values on different sides of the usual pivots
+    use_g = rng.random() < 0.25
+    g_sym = '@g%d' % i if use_g else None
+    guard_text, chains = gen_guard(rng, g_sym=g_sym)
+    style = rng.choice(['literal', 'literal', 'localvar', 'wrapper', 'swapvar', 'shiftvar', 'swapwrapper'])
+    g0, g1 = number(rng), number(rng)
+    less = ('%s: %s;\n' % (g_sym, fmt_dec(g0))) if use_g else ''
+    less += '.m%d(@a, @b) when %s { width: yes }\n' % (i, guard_text)
+    if use_g:
+        less += '%s: %s;\n' % (g_sym, fmt_dec(g1))
     if style == 'wrapper':
         less += '.w%d(@p, @q) { .m%d(@p, @q); }\n' % (i, i)
+    if style == 'swapwrapper':           # the wrapper's parameters are named like the callee's and forwarded swapped
+        less += '.w%d(@a, @b) { .m%d(@b, @a); }\n' % (i, i)
     callers = []
     pairs = []
     for k in range(rng.choice([1, 2, 3])):
@@ -97,9 +109,15 @@ def gen_case(rng, i):
             less += '.%s { .m%d(%s%s, %s%s); }\n' % (rule, i, fmt_dec(a), ua, fmt_dec(b), ub)
         elif style == 'localvar':
             less += '.%s { @p: %s%s; @q: %s%s; .m%d(@p, @q); }\n' % (rule, fmt_dec(a), ua, fmt_dec(b), ub, i)
+        elif style == 'swapvar':         # block-local variables named like the parameters, passed swapped
+            less += '.%s { @a: %s%s; @b: %s%s; .m%d(@b, @a); }\n' % (rule, fmt_dec(b), ub, fmt_dec(a), ua, i)
+        elif style == 'shiftvar':        # a literal first, then a variable named like the FIRST parameter
+            less += '.%s { @a: %s%s; .m%d(%s%s, @a); }\n' % (rule, fmt_dec(b), ub, i, fmt_dec(a), ua)
+        elif style == 'swapwrapper':
+            less += '.%s { .w%d(%s%s, %s%s); }\n' % (rule, i, fmt_dec(b), ub, fmt_dec(a), ua)
         else:
             less += '.%s { .w%d(%s%s, %s%s); }\n' % (rule, i, fmt_dec(a), ua, fmt_dec(b), ub)
-        inst = instantiate(chains, a, b)
+        inst = instantiate(chains, a, b, g1)
         model, specterm = terms(inst)
         truth = any(all((PY[op](xv, yv)) != neg for (neg, xv, op, yv) in ch) for ch in inst)
         callers.append({'rule': rule, 'model': model, 'spec': specterm, 'py_truth': truth})
